@@ -13,7 +13,8 @@ BUDGET = {"quick": (4, 500), "thorough": (16, 5000)}
 TECHNIQUE = "property-based differential testing (Hypothesis): fill.numpy vs per-row fill of a twin tree"
 RULE = (
     "Generated: a tree spec with >= 1 quantity-bearing node (no Bag range N2; Count transforms only with dict / record-array input), a column batch of "
-    "0..16 rows over the tree's critical-value alphabets (edges +-ulps, NaN, +-inf), an input representation (dict of "
+    "0..16 rows over the tree's critical-value alphabets (edges +-ulps, NaN, +-inf; in a sixth of the cases with a "
+    "weight-valued Select / Fraction also +-inf cut weights), an input representation (dict of "
     "arrays / numpy record array / pandas DataFrame with string-expression quantities / a bare 1-D ndarray with "
     "quantities over the datum itself), weights (omitted / positive "
     "scalar / zero scalar / non-negative array incl. zeros) and cut points splitting the batch into 1..4 successive "
@@ -120,6 +121,11 @@ def strategy(tier):
         exactish = draw(st.integers(0, 9)) < 7
         n = draw(st.integers(0, 16))
         batch = [draw(gen.rows(crit, exactish, none_cats=False, focus=focus)) for _ in range(n)]
+        if n and rep != "bare" and any(s_["k"] in ("Select", "Fraction") and s_["q"].get("col") == "w" for _, s_ in walk_spec(spec)) and draw(st.integers(0, 5)) == 0:
+            # a selection quantity is a quantity too: +-inf cut weights (the reference model does not cover them)
+            for r in batch:
+                if draw(st.integers(0, 2)) == 0:
+                    r["w"] = draw(st.sampled_from((float("inf"), float("inf"), float("-inf"))))
         wmode = draw(st.sampled_from(("omitted", "scalar", "zero", "array", "array")))
         excluded = 0
         if wmode != "array" and count_before_shape(spec):
@@ -213,8 +219,14 @@ def check(case):
         roww = [w] * n
     else:
         roww = list(w)
-    ref = model.evaluate(spec, list(zip(rows, roww)))
-    pol = norm.Policy(exact=ref.exact, scale=1.0 + ref.notes["maxabs"])
+    infsel = any(isinstance(r.get("w"), float) and r["w"] in (float("inf"), float("-inf")) for r in rows)
+    if infsel:
+        # infinite cut weights are outside the rational model: compare the two paths with the inexact policy
+        ref = None
+        pol = norm.Policy(exact=False, scale=1.0 + max([abs(v) for r in rows for v in (r["x"], r["y"], r["z"]) if v == v and abs(v) != float("inf")] + [1.0]))
+    else:
+        ref = model.evaluate(spec, list(zip(rows, roww)))
+        pol = norm.Policy(exact=ref.exact, scale=1.0 + ref.notes["maxabs"])
 
     bare = case["rep"] == "bare"
     hrow = build(spec, bare_qhook if bare else None)
@@ -247,9 +259,13 @@ def check(case):
         raise Violation("sum-nan-skip", f"Sum.fill.numpy skips NaN quantities, Sum.fill does not: {norm.fmt(known[:3])}", {"node": "Sum", "field": "sum"})
 
     labels = ["kind:" + k for k in kinds(spec)]
-    labels += ["rep:" + case["rep"], "weights:" + wmode, f"calls:{len(chunks)}", "exact" if ref.exact else "inexact"]
-    for key in ("edge_hits", "nonfinite"):
-        if ref.notes[key]:
-            labels.append(key)
-    nontrivial = bool(ref.notes["edge_hits"] or ref.notes["nonfinite"] or (len(chunks) >= 2 and n >= 2))
+    labels += ["rep:" + case["rep"], "weights:" + wmode, f"calls:{len(chunks)}", "exact" if ref is not None and ref.exact else "inexact"]
+    if ref is None:
+        labels.append("infinite-cut-weight")
+        nontrivial = any(w_ > 0 for w_ in roww)
+    else:
+        for key in ("edge_hits", "nonfinite"):
+            if ref.notes[key]:
+                labels.append(key)
+        nontrivial = bool(ref.notes["edge_hits"] or ref.notes["nonfinite"] or (len(chunks) >= 2 and n >= 2))
     return {"nontrivial": nontrivial, "labels": labels, "excluded": {"count-before-shape->array-weights": case.get("excluded", 0)}}
